@@ -91,6 +91,48 @@ def _int(e):
     return e.value if isinstance(e, ast.Constant) and isinstance(e.value, int) else None
 
 
+def _parity_truth(test, is_var, parity):
+    """truth of a parity test on X (is_var(X)) when X % 2 == parity:  X % 2 == 0|1, X % 2 != 0|1, X % 2, X & 1;  else None"""
+    def mod2(e):
+        return isinstance(e, ast.BinOp) and ((isinstance(e.op, ast.Mod) and const(e.right) == 2) or (isinstance(e.op, ast.BitAnd) and const(e.right) == 1)) \
+            and is_var(e.left)
+    if mod2(test):
+        return parity == 1
+    if isinstance(test, ast.Compare) and len(test.ops) == 1 and isinstance(test.ops[0], (ast.Eq, ast.NotEq)):
+        l, r = test.left, test.comparators[0]
+        if mod2(r):
+            l, r = r, l
+        if mod2(l) and const(r) in (0, 1) and not isinstance(const(r), bool):
+            return (const(r) == parity) == isinstance(test.ops[0], ast.Eq)
+    return None
+
+
+def _peval(expr, is_var, parity):
+    """simplify conditional expressions and constant-index selections that depend on the parity of X"""
+    import copy
+
+    class T(ast.NodeTransformer):
+        def visit_IfExp(self, n):
+            self.generic_visit(n)
+            t = n.test
+            neg = False
+            while isinstance(t, ast.UnaryOp) and isinstance(t.op, ast.Not):
+                neg = not neg
+                t = t.operand
+            v = _parity_truth(t, is_var, parity)
+            if v is None:
+                return n
+            return n.body if (v != neg) else n.orelse
+
+        def visit_Subscript(self, n):
+            self.generic_visit(n)
+            if isinstance(n.value, (ast.Tuple, ast.List)) and len(n.value.elts) == 2 and _parity_truth(n.slice, is_var, parity) is not None \
+                    and isinstance(n.slice, ast.BinOp):
+                return n.value.elts[parity]
+            return n
+    return T().visit(copy.deepcopy(expr))
+
+
 def _parity_branch(fn, test):
     """for `X % 2 == 0` (or != / == 1): returns (X expression, True if the test is true for EVEN values)"""
     if isinstance(test, ast.Compare) and len(test.ops) == 1 and isinstance(test.left, ast.BinOp) and isinstance(test.left.op, ast.Mod) \
@@ -107,73 +149,82 @@ def r2(tree, rep):
     loops = [n for n in walk_shallow(cw) if isinstance(n, ast.For)]
     ok = len(loops) == 1
     parity_choose = None
+    rets = [r for r in walk_shallow(cw) if isinstance(r, ast.Return)]
+    joined = rets[0].value.args[0] if len(rets) == 1 and isinstance(rets[0].value, ast.Call) and isinstance(rets[0].value.func, ast.Attribute) \
+        and rets[0].value.func.attr == "join" and len(rets[0].value.args) == 1 else None
+    lname = joined.id if isinstance(joined, ast.Name) else None
     if ok:
         lp = loops[0]
         ok = isinstance(lp.iter, ast.Call) and dotted(lp.iter.func) == "range" and len(lp.iter.args) == 1 and isinstance(lp.iter.args[0], ast.Name) \
-            and lp.iter.args[0].id == params(cw)[0] and isinstance(lp.target, ast.Name)
-        ifs = [s for s in lp.body if isinstance(s, ast.If)]
-        alt = None
-        if ok and not ifs and len(lp.body) == 1:
-            # words.append(TABLES[i % 2][os.urandom(1)].lower())  with  TABLES = (byte_to_odd_word, byte_to_even_word)
-            apps = [c for c in ast.walk(lp.body[0]) if isinstance(c, ast.Call) and dotted(c.func) == "words.append"]
-            if len(apps) == 1 and isinstance(lp.body[0], ast.Expr) and lp.body[0].value is apps[0]:
-                a = apps[0].args[0]
-                base = a.func.value if isinstance(a, ast.Call) and isinstance(a.func, ast.Attribute) and a.func.attr == "lower" else None
+            and lp.iter.args[0].id == params(cw)[0] and isinstance(lp.target, ast.Name) and lname is not None \
+            and not any(isinstance(x, (ast.Break, ast.Continue, ast.Return)) for x in ast.walk(lp))
+    if ok:
+        # evaluate one loop iteration for an even and for an odd index: which table is the (single) appended word drawn from?
+        gcw = build(cw, split=True)
+        is_i = lambda e: isinstance(e, ast.Name) and e.id == lp.target.id
+        tabs = {}
+        for parity in (0, 1):
+            found = set()
+            for nodes, end in gcw.paths_under(lambda t, parity=parity: _parity_truth(t, is_i, parity)):
+                apps = [x for x in nodes if isinstance(gcw.stmt[x], ast.Expr) and isinstance(gcw.stmt[x].value, ast.Call)
+                        and dotted(gcw.stmt[x].value.func) == lname + ".append"]
+                others = [x for x in nodes if x not in apps and any(isinstance(n, ast.Name) and n.id == lname and not isinstance(n.ctx, ast.Load)
+                                                                     or (isinstance(n, ast.Attribute) and isinstance(n.value, ast.Name) and n.value.id == lname
+                                                                         and n.attr in ("extend", "insert", "pop", "remove", "clear", "sort", "reverse"))
+                                                                     for e in gcw.head_expr(x) for n in ast.walk(e))
+                          and not (isinstance(gcw.stmt[x], ast.Assign) and isinstance(gcw.stmt[x].value, ast.List) and not gcw.stmt[x].value.elts)]
+                if others or end != 'exit':
+                    found.add("?")
+                    continue
+                if not apps:
+                    continue                      # the empty range
+                if len(apps) != 1:
+                    found.add("?")
+                    continue
+                # the random byte is drawn inside this iteration (locals bound before the loop are not looked through) ...
+                in_loop = {id(x) for x in ast.walk(lp) if isinstance(x, ast.stmt)}
+                inner = [x for x in nodes if id(gcw.stmt[x]) in in_loop or (isinstance(gcw.stmt[x], tuple) and id(gcw.stmt[x][2]) in in_loop)]
+                a = gcw.subst_env(gcw.stmt[apps[0]].value.args[0], gcw.path_env(inner, upto=apps[0]))
+                a = _peval(a, is_i, parity)
+                base = a.func.value if isinstance(a, ast.Call) and isinstance(a.func, ast.Attribute) and a.func.attr == "lower" and not a.args else None
                 if isinstance(base, ast.Subscript) and isinstance(base.slice, ast.Call) and dotted(base.slice.func) == "os.urandom" \
-                        and const(base.slice.args[0]) == 1 and isinstance(base.value, ast.Subscript):
-                    sel = base.value
-                    tb = resolve_local(cw, sel.value) if isinstance(sel.value, ast.Name) else sel.value
-                    idx = sel.slice
-                    if isinstance(tb, (ast.Tuple, ast.List)) and len(tb.elts) == 2 and isinstance(idx, ast.BinOp) and isinstance(idx.op, ast.Mod) \
-                            and const(idx.right) == 2 and isinstance(idx.left, ast.Name) and idx.left.id == lp.target.id:
-                        alt = (dotted(tb.elts[0]), dotted(tb.elts[1]))
-        if alt is not None:
-            parity_choose = alt
-            ok = alt == ("byte_to_odd_word", "byte_to_even_word")
-        else:
-            ok = ok and len(ifs) == 1 and len([s for s in lp.body if not isinstance(s, (ast.If,))]) == 0
-        if ok and alt is None:
-            x, even_true = _parity_branch(cw, ifs[0].test)
-            ok = isinstance(x, ast.Name) and x.id == lp.target.id
-            tabs = {}
-            for lab, body in ((True, ifs[0].body), (False, ifs[0].orelse)):
-                apps = [c for s in body for c in ast.walk(s) if isinstance(c, ast.Call) and dotted(c.func) == "words.append"]
-                good = len(apps) == 1 and len(body) == 1
-                if good:
-                    a = apps[0].args[0]
-                    base = a.func.value if isinstance(a, ast.Call) and isinstance(a.func, ast.Attribute) and a.func.attr == "lower" else None
-                    good = isinstance(base, ast.Subscript) and isinstance(base.value, ast.Name) and isinstance(base.slice, ast.Call) \
-                        and dotted(base.slice.func) == "os.urandom" and const(base.slice.args[0]) == 1
-                    if good:
-                        tabs[lab] = base.value.id
-                ok = ok and good
-            if ok:
-                first = tabs[True] if even_true else tabs[False]   # list used for i == 0
-                second = tabs[False] if even_true else tabs[True]
-                parity_choose = (first, second)
-                ok = first == "byte_to_odd_word" and second == "byte_to_even_word"
+                        and len(base.slice.args) == 1 and const(base.slice.args[0]) == 1:
+                    # ... the table may have been named before the loop
+                    tb = _peval(gcw.subst_env(base.value, gcw.path_env(nodes, upto=apps[0])), is_i, parity)
+                    found.add(dotted(tb) or "?")
+                else:
+                    found.add("?")
+            tabs[parity] = found
+        parity_choose = (sorted(tabs[0]), sorted(tabs[1]))
+        ok = tabs[0] == {"byte_to_odd_word"} and tabs[1] == {"byte_to_even_word"}
     rep.check("C19.R2", "choose_words: for i in range(length): exactly one word, indexed by a fresh os.urandom(1), odd list for even i then even list",
               ok, site(cw, WL), key="C19.R2:choose_words", what="the allocated words are not one fresh uniform byte each / the alternation is wrong (%s)" % (parity_choose,))
-    rets = [r for r in walk_shallow(cw) if isinstance(r, ast.Return)]
-    ok = len(rets) == 1 and isinstance(rets[0].value, ast.Call) and isinstance(rets[0].value.func, ast.Attribute) and rets[0].value.func.attr == "join" \
-        and const(rets[0].value.func.value) == "-" and dotted(rets[0].value.args[0]) == "words"
-    inits = [d for d in local_defs(cw, "words")]
+    ok = lname is not None and const(rets[0].value.func.value) == "-"
+    inits = [d for d in local_defs(cw, lname)] if lname else []
     ok = ok and len(inits) == 1 and isinstance(inits[0], ast.List) and not inits[0].elts
     rep.check("C19.R2", "choose_words returns the words joined by '-' (nothing else is added)", ok, site(cw, WL), key="C19.R2:choose_words:join")
     gc = tree.func(WL, "PGPWordList", "get_completions")
-    ifs = [n for n in walk_shallow(gc) if isinstance(n, ast.If) and _parity_branch(gc, n.test)[0] is not None]
-    ok = len(ifs) == 1
+    # which list is scanned when an even / odd number of hyphens has been typed?
+    ggc = build(gc, split=True)
+
+    def is_hyphens(e):
+        xv = expand_flow(gc, e) if isinstance(e, ast.Name) else e
+        return isinstance(xv, ast.Call) and isinstance(xv.func, ast.Attribute) and xv.func.attr == "count" and len(xv.args) == 1 \
+            and const(xv.args[0]) == "-" and isinstance(xv.func.value, ast.Name) and xv.func.value.id == params(gc)[0]
+    floops = [n for n in ggc.nodes(lambda st: isinstance(st, ast.For))]
+    ok = len(floops) == 1
+    lists = {}
     if ok:
-        x, even_true = _parity_branch(gc, ifs[0].test)
-        xv = expand_flow(gc, x)
-        ok = isinstance(xv, ast.Call) and isinstance(xv.func, ast.Attribute) and xv.func.attr == "count" and const(xv.args[0]) == "-" \
-            and isinstance(xv.func.value, ast.Name) and xv.func.value.id == params(gc)[0]
-        def chosen(body):
-            a = [s for s in body if isinstance(s, ast.Assign) and isinstance(s.targets[0], ast.Name) and s.targets[0].id == "words"]
-            return dotted(a[0].value) if len(a) == 1 else None
-        t, f = chosen(ifs[0].body), chosen(ifs[0].orelse)
-        first, second = (t, f) if even_true else (f, t)
-        ok = ok and first == "odd_words_lowercase" and second == "even_words_lowercase"
+        for parity in (0, 1):
+            found = set()
+            for nodes, end in ggc.paths_under(lambda t, parity=parity: _parity_truth(t, is_hyphens, parity)):
+                if floops[0] not in nodes:
+                    found.add("?")           # a path that never scans a list
+                    continue
+                it = ggc.subst_env(ggc.stmt[floops[0]].iter, ggc.path_env(nodes, upto=floops[0]))
+                found.add(dotted(_peval(it, is_hyphens, parity)) or "?")
+            lists[parity] = found
+        ok = lists[0] == {"odd_words_lowercase"} and lists[1] == {"even_words_lowercase"}
     rep.check("C19.R2", "get_completions picks the list by (number of hyphens typed) % 2: odd list for word 1, 3, .., even list for word 2, 4, ..", ok,
               site(gc, WL), key="C19.R2:get_completions:parity",
               what="completion offers words from the list that choose_words never uses at that position (an accepted completion yields a code allocate could not produce)")
@@ -192,7 +243,7 @@ def r2(tree, rep):
             and ((lpw.value.func.attr in ("split", "rsplit") and _int(lpw.slice) == -1)
                  or (lpw.value.func.attr == "rpartition" and _int(lpw.slice) in (2, -1))) and const(lpw.value.args[0]) == "-"
     rep.check("C19.R2", "a word is offered only if it starts with the partial last word typed", ok, site(gc, WL), key="C19.R2:get_completions:prefix-guard")
-    loopw = [n for n in walk_shallow(gc) if isinstance(n, ast.For) and isinstance(n.iter, ast.Name) and n.iter.id == "words"]
+    loopw = [n for n in walk_shallow(gc) if isinstance(n, ast.For)]
     rep.check("C19.R2", "get_completions scans the whole chosen list", len(loopw) == 1 and not any(isinstance(x, (ast.Break, ast.Return)) for x in ast.walk(loopw[0])),
               site(gc, WL), key="C19.R2:get_completions:scan")
     # no `random` module anywhere in the package's code path
